@@ -511,6 +511,9 @@ def classify(ops, res):
     if opt == "lbfgs" and info["box"] and tags == ["not-converged-slack-outside"] and not res.crash:
         return ("F-C10-13:lbfgs-box-not-converged-iterate-outside-by-slack",
                 f"box-constrained LBFGS stalls: an iterate lies outside the box by rounding (less than the slack of isFeasible) and the Cauchy step is clipped against the bound behind it; ops {ops}")
+    if opt == "lbfgs" and info["box"] and tags == ["not-converged-frozen-near-bound"] and not res.crash:
+        return ("F-C10-15:lbfgs-box-not-converged-variable-almost-on-bound",
+                f"box-constrained LBFGS freezes close to the minimiser: a movable variable is within 1e-9 (but not 1e-13) of the bound it moves to, the clipped step is too short for the line search; ops {ops}")
     if opt == "lbfgs" and info["box"] and tags == ["not-converged-still-descending-large-gradient"] and not res.crash:
         return ("F-C10-14:lbfgs-box-not-converged-cauchy-step-unscaled",
                 f"box-constrained LBFGS needs thousands of steps: the Cauchy step p0/(p0'Bp0) lacks the factor |p0|^2; ops {ops}")
